@@ -88,7 +88,8 @@ func c15Gen(r *Rng, tier string, i int) Sx {
 	var extra []Sx
 	usedK := map[string]bool{}
 	for k := r.Intn(3); k > 0; k-- {
-		key := r.Pick([]string{"page", "q", "sort"})
+		// also keys that are a prefix / a suffix / the bare name of one of the route's variables: still query arguments
+		key := r.Pick([]string{"page", "q", "sort", "v", "a", "al", "an", "nu", "v1", "all", "id", "1"})
 		if usedK[key] {
 			continue
 		}
